@@ -97,11 +97,47 @@ def one_case(rng, tier):
     return case.line()
 
 
+def exhaustive_matcher_cases():
+    """all ways to generalise a concatenation u of 1-3 ranges into v: Sigma* inserted at every subset of the
+    gaps (incl. both ends), every range kept or widened, and one range optionally made disjoint (negative
+    instances); this enumerates the prefix / suffix / middle-rigid / flexible-region shapes of the matcher,
+    e.g. u = a.b against Sigma*.a.b.Sigma* (a rigid pattern as long as all of u)"""
+    import itertools
+    out = []
+    letters = [97, 98, 99]
+    for n in (1, 2, 3):
+        for gaps in itertools.product([0, 1], repeat=n + 1):
+            for widen in itertools.product([0, 1, 2], repeat=n):      # 0 same, 1 wider, 2 disjoint
+                if sum(1 for w in widen if w == 2) > 1:
+                    continue
+                case = Case()
+                uf = [case.push("range %d %d" % (letters[i], letters[i])) for i in range(n)]
+                u = case.push("concatl %d%s" % (n, "".join(" %d" % x for x in uf)))
+                vf = []
+                for i in range(n):
+                    if gaps[i]:
+                        vf.append(case.push("all"))
+                    if widen[i] == 0:
+                        vf.append(case.push("range %d %d" % (letters[i], letters[i])))
+                    elif widen[i] == 1:
+                        vf.append(case.push("range %d %d" % (letters[i] - 1, letters[i] + 2)))
+                    else:
+                        vf.append(case.push("range %d %d" % (letters[i] + 10, letters[i] + 12)))
+                if gaps[n]:
+                    vf.append(case.push("all"))
+                v = case.push("concatl %d%s" % (len(vf), "".join(" %d" % x for x in vf)))
+                case.obs("incl %d %d" % (u, v)); case.obs("incl %d %d" % (v, u))
+                w = case.push("union %d %d" % (u, v))
+                case.obs("memall %d 3 %s" % (w, word([97, 98, 99])))
+                out.append(case.line())
+    return out
+
+
 def generate(rng, tier):
     n = 4000 if tier == "quick" else 50000
-    cases = [one_case(rng, tier) for _ in range(n)]
+    cases = exhaustive_matcher_cases() + [one_case(rng, tier) for _ in range(n)]
     info = {"rule": "ordered pairs biased to concatenations of ranges / Sigma* / loops / unions / complements on either side (rigid prefix, rigid suffix, left-to-right and right-to-left passes), plus random pairs; included_in both ways, then the union (pruned by the same test) with membership of all words <= k; non-trivial = both sides have an operator",
-            "distribution": {"cases": n}}
+            "distribution": {"cases": n}, "exhaustive_domains": ["all generalisations of a concatenation of 1-3 singleton ranges: Sigma* at every subset of the gaps x each range same / wider / disjoint (at most one disjoint)"]}
     return cases, info
 
 
